@@ -48,7 +48,7 @@ def cases(draw: Any, tier: str) -> dict:
              "sleep": 14, "add_res": 5, "set": 8 if any(tasks[t]["outcome"] == "event" for t in running) else 0}
         kind = d.weighted(list(w.items()))
         if kind == "spawn":
-            outcome = d.weighted([("ret", 45), ("raise", 20 if handler == "truthy" else 0), ("event", 18), ("forever", 17)])
+            outcome = d.weighted([("ret", 35), ("instant", 12), ("raise", 20 if handler == "truthy" else 0), ("event", 17), ("forever", 16)])
             frm = d.weighted([("F", 50), ("child", 25), ("task", 25)])
             op: dict[str, Any] = {"op": "spawn", "tid": ntid, "via": d.pick(["start", "soon"]), "from": frm, "outcome": outcome,
                                   "d": d.int(1, 4), "status": False, "name": d.pick([None, "named"]),
@@ -185,6 +185,8 @@ class Interp:
                     interp.disc("task-context:inherits-from-spawner", f"task {tid} inherits from the context of whoever spawned it")
                 if op["outcome"] == "spawner":
                     interp.do_spawn_soon(op["child"])
+                elif op["outcome"] == "instant":
+                    pass  # returns without ever yielding to the event loop
                 elif op["outcome"] == "ret":
                     await anyio.sleep(op["d"])
                 elif op["outcome"] == "raise":
